@@ -189,14 +189,14 @@ structure Semantics where
   toxMode : Mode
   deriving DecidableEq, Repr, Inhabited
 
-/-- the code as it is -/
+/-- the code as it was before a5da5b2 / 6c43d46 / 388f25f (and as `new_project` still is) -/
 def actual : Semantics := ⟨.append, false, false, false, .append, .append⟩
 /-- the repaired behaviour proposed in /verif/fixes/C17-*.md -/
 def fixed : Semantics := ⟨.truncate, true, true, true, .ifAbsent, .truncate⟩
 /-- the three generators repaired, `new_project` left as it is (if that one stays a known finding) -/
 def fixedGen : Semantics := { fixed with pyprojMode := .append, toxMode := .append }
 /-- **the one-line switch**: what the library is claimed to do today (compared with it on every run) -/
-def current : Semantics := actual
+def current : Semantics := fixedGen
 
 /-- the generators write their files from scratch and start from clean class-level state -/
 def pureGen (s : Semantics) : Bool :=
@@ -397,11 +397,12 @@ def ctxKids (s : FixState) : List GTree → FixState × List (Nm × Nat)
     (b.1, a.2 :: b.2)
 end
 
-/-- `Definitions._client_session` raises ValueError for the version not in this list -/
-def versionOk (v : Nat) : Bool := v = 44 || v = 50 || v = 502
+/-- `Definitions._client_session` knows 4.2 (since b154f58), 4.4, 5.0, 5.0SP2 and raises ValueError for anything else
+    (the CLI offers nothing else) -/
+def versionOk (v : Nat) : Bool := v = 42 || v = 44 || v = 50 || v = 502
 
-/-- `'Fix44Session'` / `'Fix50Session'` -/
-def clientSession (v : Nat) : Nat := if v = 44 then 44 else 50
+/-- `'Fix42Session'` / `'Fix44Session'` / `'Fix50Session'` -/
+def clientSession (v : Nat) : Nat := if v = 42 then 42 else if v = 44 then 44 else 50
 
 /-- `parse()`: `types[field.get('type')]` — the 4.2 type table has no NUMINGROUP, so a 4.2 dictionary that defines a group
     count field fails with KeyError while the `<fields>` section is read (before anything else happens) -/
@@ -416,7 +417,7 @@ def planFix (sem : Semantics) (st : ProcState) (spec : FixSpec) (o : GenOpts) : 
   -- `message_context = [message.get_codegen_context(self) …]` is evaluated first and mutates Group.Contexts / the counters
   let k := ctxKids s0 spec.groups
   let st' := { st with contexts := k.1.contexts, counter := k.1.counter }
-  -- `'client_session': self._client_session()` raises ValueError for 4.2 — after the mutation
+  -- `'client_session': self._client_session()` raises ValueError for an unknown version — after the mutation
   if !versionOk spec.version then (st', .error .value)
   else
     let mp := prefix_ o.pfx ++ sFix ++ o.app
